@@ -587,6 +587,22 @@ def run(fx, tier):
                                                     'is validated by ' + '/'.join(sorted(got)) if got else
                                                     'is never handed to a validator: an ill-formed or oversized value is put on the wire'),
                         key='C16:R-FLOW:%s:unvalidated-property:%s' % (f.cls, pn), where=f.file)
+        # every path that SENDS has been through the request's validation (whatever it ends up sending: a DISCONNECT whose
+        # oversize properties are dropped is still an accepted request)
+        VALIDATE_OF = {'publish_send_op': 'validate_publish', 'subscribe_op': 'validate_subscribe',
+                       'unsubscribe_op': 'validate_unsubscribe', 'disconnect_op': 'validate_disconnect'}
+        want_v = VALIDATE_OF[f.cls]
+        n_send = 0
+        for p_i, p in enumerate(op_paths(fx, f, relevant=relevant)):
+            if p.end()[0] != 'continue':
+                continue
+            n_send += 1
+            went = [it for it in p.items if it.kind == 'enter' and it.fn.n == want_v] or p.calls(want_v)
+            v.check(bool(went), 'R-FLOW', '%s:path%d:validated-before-send' % (name, p_i),
+                    'a path that hands a packet to the sender has run %s first' % want_v,
+                    key='C16:R-FLOW:%s:send-without-validation' % f.cls, where=f.file)
+        if n_send == 0:
+            raise AnalysisBroken('%s: no sending path found' % name)
         # request-specific fields
         if f.cls == 'publish_send_op':
             for p_i, p in enumerate(paths):
